@@ -76,6 +76,26 @@ Definition ident_of_tokens (k : fold_kind) (q : N) (l : list tok) : option str :
 Definition ident_denotes (k : fold_kind) (q : N) (text : str) : option str :=
   ident_of_tokens k q (sql_lex std_sql text).
 
+(* multi-part names (translate_ident: schema.table.column, each part emitted by translate_ident_part, joined by dots):
+   the token list must be identifiers separated by single dots; the path it names is the list of the parts *)
+Fixpoint path_of_tokens (k : fold_kind) (q : N) (l : list tok) : option (list str) :=
+  match l with
+  | [] => None
+  | t :: r =>
+      match ident_of_tokens k q [t] with
+      | None => None
+      | Some s =>
+          match r with
+          | [] => Some [s]
+          | TPunct c :: r' =>
+              if c =? 46 then match path_of_tokens k q r' with Some ss => Some (s :: ss) | None => None end else None
+          | _ => None
+          end
+      end
+  end.
+Definition path_denotes (k : fold_kind) (q : N) (text : str) : option (list str) :=
+  path_of_tokens k q (sql_lex std_sql text).
+
 (* table obligations over the character classes: every member satisfies P *)
 Definition nrange (lo hi : N) : list N :=
   if lo <=? hi then map (fun i => lo + N.of_nat i) (seq 0 (S (N.to_nat (hi - lo)))) else [].
